@@ -356,3 +356,10 @@ From Kardia Require Import C11.SourceTie.
 Theorem C11_source_tie : C11_source_tie_statement.
 Proof. exact C11_source_tie_proof. Qed.
 Print Assumptions C11_source_tie.
+
+(** The decision-critical functions of the anchored code have exactly the decisions the source tie knows about
+    (go2coq manifests, regenerated from /repo on every check; statement in SourceManifest.v). *)
+From Kardia Require Import C11.SourceManifest.
+Theorem C11_source_manifest : C11_source_manifest_statement.
+Proof. exact C11_source_manifest_proof. Qed.
+Print Assumptions C11_source_manifest.
